@@ -152,16 +152,128 @@ def codec_part(ctx):
     return ncases
 
 
+# ------------------------------------------------------------------------------------------------ e2e parts
+
+def dedup_cases(raw, out):
+    lines = sorted(set(open(raw).read().splitlines()))
+    with open(out, "w") as fh:
+        for ln in lines:
+            fh.write(ln + "\n")
+    return len(lines)
+
+
+def simple_part(ctx, part, module, cfg, defect_cfgs, violated, mode, reset_ev, classify, eval_evs):
+    """TLC model check + case emission, defect rejection, one driver process (one in-process MOSN), trace validation."""
+    raw = os.path.join(ctx.tmp, part + "_raw.jsonl")
+    cases = os.path.join(ctx.tmp, part + "_cases.jsonl")
+    r = vlib.run_tlc(ctx, "wire", module, cfg, workers=1, cases_to=raw, timeout=900)
+    ctx.add_tlc(r)
+    ncases = dedup_cases(raw, cases)
+    for d in defect_cfgs:
+        rr = vlib.run_tlc(ctx, "wire", module, d, expect_ok=False, timeout=300)
+        if rr["ok"] or rr["violated"] != violated:
+            raise vlib.Inconclusive("%s model does not reject %s" % (module, d))
+    binary = vlib.go_build("c01")
+    trace = os.path.join(ctx.tmp, part + ".ndjson")
+    vlib.run_driver(ctx, binary, ["-mode", mode, "-cases", cases, "-trace", trace], timeout=1700)
+    evs = vlib.read_jsonl(trace)
+    nruns = sum(1 for e in evs if e["ev"] == reset_ev)
+    if nruns != ncases:
+        raise vlib.Inconclusive("%s driver replayed %d of %d cases" % (part, nruns, ncases))
+    v = vlib.validate_trace(ctx, "wire", module + "Trace", module + "Trace.cfg", trace, timeout=1500)
+    ctx.cov["states"] += v["distinct"]; ctx.cov["transitions"] += v["generated"]
+    mm = mismatches(v["text"])
+    if not v["accepted"] and not mm and v["matched"] is None:
+        raise vlib.Inconclusive("trace validation of %sTrace did not complete:\n%s" % (module, v["text"][-1500:]))
+    run_at, start = {}, 0
+    for i, e in enumerate(evs, 1):
+        if e["ev"] == reset_ev:
+            start = i
+        run_at[i] = start
+
+    def fail(line, kind):
+        run = evs[run_at[line] - 1:line]
+        sig = "C01:%s:%s" % (part, classify(run, kind))
+        vlib.report_failure(ctx, sig, dict(line=line, kind=kind, seed=ctx.seed, history=run))
+    for line, kinds in sorted(mm.items()):
+        for k in sorted(kinds):
+            fail(line, k)
+    if v["matched"] is not None and v["matched"] < len(evs):
+        fail(v["matched"] + 1, "trace-rejected:" + evs[v["matched"]]["ev"])
+    ctx.cov["traces_validated_against_impl"] += nruns
+    ctx.cov["evaluations"] += sum(1 for e in evs if e["ev"] in eval_evs)
+    ctx.cov["distinct_nontrivial"] += ncases
+    ctx.cov.setdefault("trace_events", {})[part] = len(evs)
+    k = random.Random(ctx.seed).randrange(max(1, nruns))
+    st = [i for i, e in enumerate(evs) if e["ev"] == reset_ev][k]
+    ctx.sample({"part": part, "run": evs[st:st + 4]})
+    return evs
+
+
+def relay_classify(run, kind):
+    closer = next((e["side"] for e in run if e["ev"] == "close"), "-")
+    unsynced = False
+    for e in run:
+        if e["ev"] == "send" and e["side"] == closer:
+            unsynced = True
+        if e["ev"] == "sync":
+            unsynced = False
+    return "%s:closer=%s:%s" % (kind, closer, "last-bytes-in-flight" if unsynced else "quiescent")
+
+
+def http_classify(run, kind):
+    rq = run[0]
+    if kind == "request-uri-changed":
+        u = rq["uri"]
+        path, _, q = u.partition("?")
+        if u.endswith("?"):
+            cls = "empty-query"
+        elif "//" in path or path.endswith("/"):
+            cls = "empty-segment"
+        elif "/.." in path or "/." in path:
+            cls = "dot-segment"
+        elif "%" in path:
+            cls = "escaped-path"
+        elif "%" in q or "?" in q or "+" in q:
+            cls = "query"
+        else:
+            cls = "other"
+    elif kind.startswith("request-headers") or kind.startswith("response-headers"):
+        cls = "hdr=" + rq["hdr"]
+    elif kind == "request-body-changed":
+        cls = "body=%s" % rq["body"]
+    elif kind.startswith("response-"):
+        cls = "status=%s:rbody=%s" % (rq["status"], rq["rbody"])
+    else:
+        cls = "method=" + rq["method"]
+    return "%s:%s:%s" % (rq["pair"], kind, cls)
+
+
 def run(ctx):
+    q = ctx.quick()
     n = codec_part(ctx)
+    relay = simple_part(ctx, "relay", "TcpRelay", "TcpRelay.cfg" if q else "TcpRelay_thorough.cfg", ["TcpRelay_defect.cfg"],
+                        "NothingLostBeforeEof", "relay", "conn", relay_classify, ("sync", "close", "eof"))
+    timeouts = sum(1 for e in relay if e["ev"] == "eof" and e["how"] == "timeout") + sum(1 for e in relay if e["ev"] == "sync" and not e["ok"])
+    if timeouts:
+        ctx.notes.append("relay: %d waits ended on the harness deadline (no verdict taken from them)" % timeouts)
+        if timeouts * 4 > sum(1 for e in relay if e["ev"] == "conn"):
+            raise vlib.Inconclusive("relay: %d harness deadlines hit" % timeouts)
+    simple_part(ctx, "http", "FidelityHttp", "FidelityHttp.cfg" if q else "FidelityHttp_thorough.cfg", ["FidelityHttp_defect.cfg"],
+                "UriPreserved", "http", "req", http_classify, ("seen", "resp"))
     ctx.cov["rule"] = ("codec: every behaviour recv;(<=1 header/body call | scribble | reuse)*;forward;[..;forward] of length <= MaxOps that TLC "
                        "enumerates from Codec.tla over codec x direction x length classes at the byte-width boundaries (one dimension off its "
                        "unremarkable value in quick, two in thorough) x mutation arguments incl. header blocks of exactly 65535/65536/70009 bytes; "
-                       "one case = one behaviour replayed into the real codec")
+                       "one case = one behaviour replayed into the real codec; relay: every schedule of <= MaxOps peer operations "
+                       "(send of a chunk size / wait for quiescence / close) ending in a close, run through the TCP proxy listener of an in-process "
+                       "MOSN; http: every request target of <= MaxSegs segments x query kinds with GET plus methods x bodies x header kinds x "
+                       "responses on a plain target, for the four HTTP/1, HTTP/2 listener/cluster pairings of an in-process MOSN")
     ctx.cov["exhaustive"] = True
     ctx.assumptions += [
         "byte values are seeded random (VERIF_SEED); lengths, counts and positions are enumerated",
         "dubbo/dubbo-thrift/tars: the header map is a routing view derived from the payload and has no wire representation; header calls must leave the frame unchanged",
         "tars: the data buffer of a frame is the complete frame (GetData returns it); a replaced buffer is expected to be what is forwarded",
         "header keys are unique within a frame; 4- and 8-byte length fields are not driven to their limits (lengths <= 1 MiB)",
+        "relay: a peer closes only after it has received everything the other peer wrote (no reset-induced loss); full close, no half-close",
+        "http: header names compare case-insensitively, a repeated field may arrive joined by ', '; Host is not compared; upstream is Go net/http (h1 and h2c)",
     ]
